@@ -58,6 +58,7 @@ type c17World struct {
 	ops    [6]c17Op
 	nops   int
 	readOut, writeOut bool // one outstanding read / application write at most
+	rearm  int             // how many times a completed read starts the next one from its callback
 	sent   []c16Sent       // frames the client must put on the wire, in order
 	pings  int
 	closed bool
@@ -81,6 +82,10 @@ func (w *c17World) startRead() {
 		w.ops[id].err = err
 		vf.Assert("read-callback-at-most-once", w.ops[id].calls == 1)
 		w.readOut = false
+		if w.rearm > 0 && err == nil {
+			w.rearm--
+			w.startRead() // the usual read loop: the callback starts the next read
+		}
 	})
 }
 
@@ -217,6 +222,33 @@ func VerifC17_PongFlushAndWrite() {
 		w.startWrite()
 		vf.Reach("serialised")
 	}
+	w.finish()
+	vf.Reach("end")
+}
+
+// An application write is started, then a read, before (or around) the next poll cycle: nothing
+// overlaps here in a correct stream (the written frame has left the queue when the read's flush looks).
+func VerifC17_WriteThenRead() {
+	w := c17New()
+	vf.Unwind(64)
+	w.startWrite()
+	if vf.Bool("poll-between") {
+		w.ioc.PollOne()
+	}
+	w.startRead()
+	w.finish()
+	vf.Reach("end")
+}
+
+// The read loop (each completion starts the next read) runs while an application write is in
+// flight: peer data and writability may be reported in the same poll cycle.
+func VerifC17_ReadLoopWhileWriting() {
+	w := c17New()
+	vf.Unwind(64)
+	w.rearm = 1
+	w.startRead()
+	w.startWrite()
+	w.peerData()
 	w.finish()
 	vf.Reach("end")
 }
